@@ -71,6 +71,8 @@ impl VHeap {
     #[verifier::external_body]
     pub fn push(&mut self, e: SortedNode) ensures final(self).items@ == old(self).items@.push((e.0, e.1)), { unimplemented!() }
     #[verifier::external_body]
+    pub fn len(&self) -> (r: usize) ensures r == self.items@.len(), { unimplemented!() }
+    #[verifier::external_body]
     pub fn pop(&mut self) -> (r: Option<SortedNode>)
         ensures
             old(self).items@.len() == 0 ==> r is None && final(self).items@ == old(self).items@,
@@ -200,3 +202,7 @@ pub fn vextend_missing_tree(set: &mut VIdSet<TreeIdC>, subtree: &Option<TreeIdC>
     ensures forall|k: TreeIdC| #![trigger final(set).s@.contains(k)] final(set).s@.contains(k) <==> old(set).s@.contains(k) || (!dest.trees().contains(k) && *subtree == Some(k)),
         forall|k: TreeIdC| #![trigger old(set).s@.contains(k)] old(set).s@.contains(k) ==> final(set).s@.contains(k),
 { unimplemented!() }
+
+// BinaryHeap::new()
+#[verifier::external_body]
+pub fn vheap_new() -> (r: VHeap) ensures r.items@.len() == 0, { unimplemented!() }
